@@ -49,7 +49,9 @@ def enumerate_cases(tier):
             range(k + 1), (0, 1), (None,) + tuple(range(1, nmax + 1))):
         yield {"start": start, "error": err, "target": target,
                "delays": [d1, d2, d3], "ack_delay": ack, "error_at": at,
-               "latency": 0}
+               "latency": 0,
+               # AL status bit 5 set in half of the enumerated behaviours
+               "id_loaded": (d1 + d2 + d3 + ack) % 2 == 1}
 
 
 def strategy(tier):
@@ -61,6 +63,7 @@ def strategy(tier):
         "ack_delay": st.integers(0, 2),
         "error_at": st.none() | st.integers(1, 20),
         "latency": st.integers(0, 3),
+        "id_loaded": st.booleans(),
     })
 
 
@@ -86,6 +89,7 @@ def run_case(case):
     term.al_delay = delay
     term.al_refuse = refuse
     term.al_error_at = case["error_at"]
+    term.al_status_extra = 0x20 if case.get("id_loaded") else 0
     bus = simbus.Bus([term])
     outcome = {}
 
